@@ -10,6 +10,7 @@ import (
 	"pgregory.net/rapid"
 
 	"verif/harness/gen"
+	"verif/harness/mk"
 	"verif/harness/model"
 	"verif/vlib"
 )
@@ -151,6 +152,22 @@ func c01Run(c c01Case, st *vlib.Stats) string {
 	}
 	if msg := CompareAll(eng, m, tr); msg != "" {
 		return "at the end of the history, after USE of another database and back: " + msg
+	}
+	// and after the program was closed and started again
+	if err := eng.Shutdown(); err != nil {
+		return "clean shutdown failed: " + err.Error()
+	}
+	eng.Sess.RelationService = nil
+	eng2, err := mk.Start(eng.Dir)
+	if err != nil {
+		return "start after a clean shutdown failed: " + err.Error()
+	}
+	defer eng2.Crash(true)
+	if err := eng2.Exec("USE " + DBName); err != nil {
+		return "USE after restart failed: " + err.Error()
+	}
+	if msg := CompareAll(eng2, m, tr); msg != "" {
+		return "at the end of the history, after a clean shutdown and restart: " + msg
 	}
 	return ""
 }
